@@ -68,6 +68,7 @@ func readerReadRules(c *Ctx, prop string) {
 	}
 	errNoAdvance := c.globalErrName(rule, wsutil, "ErrNoFrameAdvance")
 	errUTF8 := c.globalErrName(rule, wsutil, "ErrInvalidUTF8")
+	errUTF8Val := c.globalVal(rule, wsutil, "ErrInvalidUTF8")
 	m := c.machine()
 	var recv *fold.Obj
 	type inT struct {
@@ -120,7 +121,7 @@ func readerReadRules(c *Ctx, prop string) {
 	m.Models["invoke:(io.Reader).Read"] = func(cl *fold.Call) fold.Val {
 		mm := cl.M
 		mm.Emit(fold.Effect{Kind: "call", Name: "frame.Read", Args: cl.Args})
-		cur.rdErr = mm.Choose("rd.err", 3)
+		cur.rdErr = mm.Choose("rd.err", 4)
 		cur.left = mm.Choose("rd.left", 2) == 1
 		rawN := fold.Ref{O: recv, Path: []int{L.raw, 1}}
 		if cur.left {
@@ -134,6 +135,10 @@ func readerReadRules(c *Ctx, prop string) {
 			e = fold.Sym{Name: "global:io.EOF", NonNil: true}
 		case 2:
 			e = fold.Sym{Name: "read-error", NonNil: true}
+		case 3:
+			// the validator in front of the frame refuses the bytes it has just read: n is the
+			// count it reports together with its own error
+			e = errUTF8Val
 		}
 		return fold.Tuple{fold.Int{Lo: 0, Hi: fold.MaxInt64, Name: "n"}, e}
 	}
@@ -232,6 +237,10 @@ func readerReadRules(c *Ctx, prop string) {
 			continue
 		}
 		switch {
+		case in.rdErr == 3:
+			if e != errUTF8 || !(n == "n" || strings.HasPrefix(n, "n[")) {
+				problems = append(problems, "an invalid-UTF-8 error of the frame reader must be returned with the count that came with it "+desc+": ("+n+","+e+")")
+			}
 		case in.rdErr == 2:
 			if e != "read-error" || !strings.HasPrefix(n, "n") {
 				problems = append(problems, "transport error must be returned as is "+desc+": "+e)
